@@ -262,3 +262,100 @@ func TestVerifC06Transport(t *testing.T) {
 	}
 	wg.Wait()
 }
+
+// ---- keep-alive reuse: the script is per REQUEST, connections stay open after an answered request, so a
+// later attempt can land on a connection that has already served one (the case in which net/http itself
+// re-sends a request it considers replayable).  Every request whose headers reach the server is an attempt.
+
+type verifKAStep struct {
+	When   string `json:"when"` // "answer" (read the body, answer Status, keep the connection) or "close" (close without answering)
+	Status int    `json:"status,omitempty"`
+}
+
+func verifRunKeepAlive(out *verifOut, name string, size int, script []verifKAStep) {
+	ln, err := net.Listen("tcp", "127.0.0.1:0")
+	if err != nil {
+		panic(err)
+	}
+	defer ln.Close()
+	var mu sync.Mutex
+	nreq := 0
+	var seen []map[string]interface{}
+	go func() {
+		for {
+			c, err := ln.Accept()
+			if err != nil {
+				return
+			}
+			go func(c net.Conn) {
+				defer c.Close()
+				br := bufio.NewReader(c)
+				for onConn := 0; ; onConn++ {
+					req, err := http.ReadRequest(br)
+					if err != nil {
+						return
+					}
+					mu.Lock()
+					i := nreq
+					nreq++
+					st := verifKAStep{When: "answer", Status: 200}
+					if i < len(script) {
+						st = script[i]
+					}
+					seen = append(seen, map[string]interface{}{"request": i + 1, "nth_on_connection": onConn + 1, "step": st})
+					mu.Unlock()
+					if st.When == "close" {
+						return
+					}
+					io.Copy(io.Discard, req.Body)
+					fmt.Fprintf(c, "HTTP/1.1 %d %s\r\nContent-Length: 0\r\n\r\n", st.Status, http.StatusText(st.Status))
+				}
+			}(c)
+		}
+	}()
+	tr := &http.Transport{}
+	defer tr.CloseIdleConnections()
+	client := &http.Client{Transport: tr, Timeout: 20 * time.Second}
+	req, _ := http.NewRequest("GET", "http://backend.invalid/x", nil)
+	rf, err := NewResponseForwarder(client, "http://"+ln.Addr().String()+"/", "b", "id", req, nil)
+	if err != nil {
+		out.emit(map[string]interface{}{"kind": "keepalive", "name": name, "error": err.Error()})
+		return
+	}
+	done := make(chan string, 1)
+	go func() {
+		rf.Header().Set("X-Verif", "c06")
+		rf.WriteHeader(200)
+		rf.Write(verifStream(size, 7))
+		if err := rf.Close(); err != nil {
+			done <- err.Error()
+			return
+		}
+		done <- ""
+	}()
+	returned, closeErr := false, ""
+	select {
+	case closeErr = <-done:
+		returned = true
+	case <-time.After(12 * time.Second):
+	}
+	time.Sleep(100 * time.Millisecond)
+	mu.Lock()
+	defer mu.Unlock()
+	out.emit(map[string]interface{}{"kind": "keepalive", "name": name, "size": size, "script": script, "requests_seen": seen, "n_requests": len(seen), "handler_returned": returned, "close_err": closeErr})
+}
+
+func TestVerifC06KeepAlive(t *testing.T) {
+	out := verifOpenOut(t)
+	defer out.close()
+	a := func(code int) verifKAStep { return verifKAStep{When: "answer", Status: code} }
+	cl := verifKAStep{When: "close"}
+	for _, size := range []int{10, 3000, 5000, 100000} {
+		verifRunKeepAlive(out, "healthy", size, []verifKAStep{a(200)})
+		verifRunKeepAlive(out, "503-then-ok-same-connection", size, []verifKAStep{a(503), a(200)})
+		verifRunKeepAlive(out, "503-then-close-on-reused-connection", size, []verifKAStep{a(503), cl, a(200)})
+		verifRunKeepAlive(out, "503-close-503-close", size, []verifKAStep{a(503), cl, a(503), cl, a(200)})
+		verifRunKeepAlive(out, "503-then-closes", size, []verifKAStep{a(503), cl, cl, cl, cl, cl, a(200)})
+		verifRunKeepAlive(out, "always-503", size, []verifKAStep{a(503), a(503), a(503), a(503), a(503), a(503)})
+	}
+}
